@@ -181,45 +181,57 @@ def shouldPrune : Option (List Elem) → Bool
   | none => true
   | some es => es.isEmpty
 
-/-- The loop body over the remaining break points. `n` = number of break points,
-`idx` = line index, `start` = `start_of_line`, `pending` = `disc_post_break_nodes`. -/
+/-- TeX.2021.879: how many items after `start1` are pruned (`rest` = the break points still
+to come). -/
+def pruneAfter (l : List Item) (pend' : Option (List Elem)) (start1 : Nat) (rest : List Nat) :
+    Except Err Nat :=
+  if shouldPrune pend' then
+    match rest with
+    | [] => .ok 0
+    | nb :: _ => pruneCount (l.drop start1) (nb - start1)
+  else .ok 0
+
+/-- One iteration of the loop over the break points: the line, the next `start_of_line` and
+the next `disc_post_break_nodes`. `n` = number of break points, `idx` = line index,
+`start` = `start_of_line`, `pending` = `disc_post_break_nodes`, `rest` = later break points. -/
+def step (p : Params) (l : List Item) (n idx start : Nat) (pending : Option (List Elem))
+    (bp : Nat) (rest : List Nat) : Except Err (Line × Nat × Option (List Elem)) :=
+  if ¬ (start ≤ bp ∧ bp ≤ l.length) then .error .slice
+  else
+    match breakPart l[bp]? with
+    | .error e => .error e
+    | .ok (brk, pend', skip) =>
+      match pruneAfter l pend' (bp + 1 + skip) rest with
+      | .error e => .error e
+      | .ok k =>
+        match lineWidth p.widths idx with
+        | .error e => .error e
+        | .ok w =>
+          let ln : Line :=
+            { left := if p.leftSkip.isZero then [] else [.glue 0 p.leftSkip]
+              post := pendingItems pending
+              body := (l.drop start).take (bp - start)
+              brk := brk
+              right := .glue 0 p.rightSkip
+              width := w
+              indent := lineIndent p.indents idx
+              pen := none }
+          if ln.flat.any Item.packTodo then .error .packTodo
+          else
+            match linePenalty p n idx pend'.isSome with
+            | .error e => .error e
+            | .ok pen => .ok ({ ln with pen := pen }, bp + 1 + skip + k, pend')
+
 def go (p : Params) (l : List Item) (n : Nat) :
     Nat → Nat → Option (List Elem) → List Nat → Except Err (List Line)
   | _, _, _, [] => .ok []
   | idx, start, pending, bp :: rest =>
-    if ¬ (start ≤ bp ∧ bp ≤ l.length) then .error .slice
-    else
-      match breakPart l[bp]? with
+    match step p l n idx start pending bp rest with
+    | .error e => .error e
+    | .ok (ln, start', pend') =>
+      match go p l n (idx + 1) start' pend' rest with
       | .error e => .error e
-      | .ok (brk, pend', skip) =>
-        let start1 := bp + 1 + skip
-        match (if shouldPrune pend' then
-                 match rest with
-                 | [] => .ok 0
-                 | nb :: _ => pruneCount (l.drop start1) (nb - start1)
-               else .ok 0 : Except Err Nat) with
-        | .error e => .error e
-        | .ok k =>
-          match lineWidth p.widths idx with
-          | .error e => .error e
-          | .ok w =>
-            let ln : Line :=
-              { left := if p.leftSkip.isZero then [] else [.glue 0 p.leftSkip]
-                post := pendingItems pending
-                body := (l.drop start).take (bp - start)
-                brk := brk
-                right := .glue 0 p.rightSkip
-                width := w
-                indent := lineIndent p.indents idx
-                pen := none }
-            if ln.flat.any Item.packTodo then .error .packTodo
-            else
-              match linePenalty p n idx pend'.isSome with
-              | .error e => .error e
-              | .ok pen =>
-                match go p l n (idx + 1) (start1 + k) pend' rest with
-                | .error e => .error e
-                | .ok ls => .ok ({ ln with pen := pen } :: ls)
+      | .ok ls => .ok (ln :: ls)
 
 def postLineBreak (p : Params) (l : List Item) (bs : List Nat) : Except Err (List Line) :=
   go p l bs.length 0 0 none bs
@@ -241,16 +253,26 @@ structure Dropped where
   gone : List Item
   deriving DecidableEq, Repr, Inhabited
 
+/-- The post-break half of a discretionary. -/
+def postOf : Option Item → List Item
+  | some (.disc _ post _) => post.map Elem.toItem
+  | _ => []
+
+def Item.replace : Item → Nat
+  | .disc _ _ r => r
+  | _ => 0
+
 /-- TeX.2021.879/§882 in the property's words: after a break at index `b` (next break `b'`) a
 discretionary takes its `replace` items with it; then, unless post-break material starts the
 next line, the discardable items up to the next break are dropped. -/
 def goneAfter (l : List Item) (b b' : Nat) : List Item :=
   match l[b]? with
-  | some (.disc _ post r) =>
-      (l.drop (b + 1)).take r ++
-        (if post.isEmpty then ((l.drop (b + 1 + r)).take (b' - (b + 1 + r))).takeWhile Item.discardable
+  | some it =>
+      (l.drop (b + 1)).take it.replace ++
+        (if (postOf (some it)).isEmpty then
+           ((l.drop (b + 1 + it.replace)).take (b' - (b + 1 + it.replace))).takeWhile Item.discardable
          else [])
-  | _ => ((l.drop (b + 1)).take (b' - (b + 1))).takeWhile Item.discardable
+  | none => []
 
 def droppedOf (l : List Item) : List Nat → List Dropped
   | b :: b' :: rest =>
@@ -267,11 +289,6 @@ def visible : Item → List Item
   | .kern k _ => [.kern k 0]
   | .penalty p => [.penalty p]
   | .math a => [.math a]
-  | _ => []
-
-/-- The post-break half of a discretionary. -/
-def postOf : Option Item → List Item
-  | some (.disc _ post _) => post.map Elem.toItem
   | _ => []
 
 def stripPrefix : List Item → List Item → Option (List Item)
@@ -307,10 +324,6 @@ def reassemble (p : Params) (lines : List (List Item)) (ds : List Dropped) : Opt
 def Item.isBreak : Item → Bool
   | .glue _ _ | .kern _ _ | .penalty _ | .disc _ _ _ | .math _ => true
   | _ => false
-
-def Item.replace : Item → Nat
-  | .disc _ _ r => r
-  | _ => 0
 
 /-- A sequence of break positions as TeX's `line_break` hands them to `post_line_break`: strictly
 increasing, each at a breakable item, the next one after the items a discretionary replaces,
